@@ -15,7 +15,7 @@ Log == ndJsonDeserialize("trace.ndjson")
 VARIABLE ti
 tvars == <<vars, ti>>
 
-NoFlags == [keep |-> FALSE, lazy |-> FALSE, ver |-> FALSE]
+NoFlags == [keep |-> FALSE, lazy |-> FALSE, ver |-> FALSE, root |-> "d"]
 TraceInit == /\ ti = 1
              /\ tree0 = {} /\ flags = NoFlags /\ W = 1
              /\ fs = << >> /\ fs1 = << >> /\ st1 = [status |-> "none", errors |-> 0] /\ clock = 3
@@ -34,8 +34,8 @@ FilesOf(l) == { [dir |-> l.files[j].dir, name |-> l.files[j].name, c |-> l.files
 TraceReset == /\ mpc = "done" /\ \A i \in 1..Len(evs) : wk[i].pc = "done"
               /\ tree0' = FilesOf(L) /\ flags' = L.flags /\ W' = L.w
               /\ fs' = FsOf(FilesOf(L)) /\ fs1' = << >> /\ st1' = st1 /\ clock' = 4
-              /\ evs' = Events(FsOf(FilesOf(L))) /\ nextev' = 1 /\ wpc' = "walk" /\ dpc' = "recv" /\ dcur' = 0
-              /\ wk' = [i \in 1..Len(Events(FsOf(FilesOf(L)))) |-> Idle]
+              /\ evs' = EventsR(FsOf(FilesOf(L)), L.flags.root) /\ nextev' = 1 /\ wpc' = "walk" /\ dpc' = "recv" /\ dcur' = 0
+              /\ wk' = [i \in 1..Len(EventsR(FsOf(FilesOf(L)), L.flags.root)) |-> Idle]
               /\ sem' = 0 /\ wg' = 0 /\ lastMod' = {} /\ hashes' = {} /\ inHash' = {} /\ race' = FALSE
               /\ postq' = << >> /\ postClosed' = FALSE /\ errsClosed' = FALSE /\ ppc' = "run"
               /\ mpc' = "read" /\ errorCount' = 0 /\ status' = "running" /\ panic' = FALSE /\ run' = 1
